@@ -81,6 +81,9 @@ def run(ctx):
         ctx.run_cases("enumerated-unit%g-off%d" % (pl[0], int(pl[1][0])), sub, path, execute, "Judge_Reroot", keyfn, nontrivial)
     near = [dict(c, _place=PLACEMENT_NEAR) for c in cases if c["op"] == "cat" and c["co"] == 3]
     ctx.run_cases("enumerated-near-junctions", near, path, execute, "Judge_Reroot", keyfn, nontrivial)
+    # the same at the origin with a step of 0.001: the junctions are 1.7e-3 apart - far more than the merge tolerance, far less than any feature of a neuron
+    tiny = [dict(c, _place=(0.001, (0.0, 0.0, 0.0))) for c in cases if c["op"] == "cat" and c["co"] == 3][:: (2 if ctx.tier == "quick" else 1)]
+    ctx.run_cases("enumerated-tiny-gap", tiny, path, execute, "Judge_Reroot", keyfn, nontrivial)
     ctx.assumptions += ["cat_tree: the types of the second tree's old root and junction node may come back exchanged (re-rooting documents that exchange) or not",
                         "coordinates are lattice values times a unit exactly representable in float32; translation residue up to 1e-3 units is quantised away"]
     return ctx.finish(rule=RULE)
